@@ -12,8 +12,10 @@ Verdicts(c) ==
   IF c.outcome # "ok"
   THEN {<<"Refused", IF ~MAccepts(c.target) THEN "mech" ELSE c.outcome>>}
   ELSE UNION { LET evs == EventsOfCall(c, i)
-                   want == IF AFires(c.target, c.calls[i]) THEN 1 ELSE 0
-                   mwant == IF MFires(c.target, c.calls[i]) THEN 1 ELSE 0
+                   \* when the method is an inner step of a call path (poll > obj.meth > v) only calls made under poll count
+                   under == ~c.nested \/ c.via[i]
+                   want == IF under /\ AFires(c.target, c.calls[i]) THEN 1 ELSE 0
+                   mwant == IF under /\ MFires(c.target, c.calls[i]) THEN 1 ELSE 0
                IN (IF Len(evs) = want THEN {}
                    ELSE {<<IF Len(evs) > want THEN "WrongReceiverObserved" ELSE "ReceiverMissed",
                            IF Len(evs) = mwant THEN "mech" ELSE "other">>}) \cup
